@@ -191,10 +191,16 @@ def skip_empty_work(node):
 RUN_GROUP_IFS = []
 
 
+import inline as _inline
+_INV = _inline.load_inventory()
+
+
 def _moved(key, m, table, mod_of):
     """a triaged construct that moved into another function of the same module (extract-helper) is the same site"""
     if key in table:
         return key
+    if f"{m.rel}:{key[0]}" in _INV:
+        return key          # a function of the reference tree: its sites were triaged one by one, nothing moved here
     for (f, sh) in table:
         if sh == key[1] and mod_of.get(f) == m.name:
             return (f, sh)
